@@ -459,6 +459,8 @@ def run(ctx):
     check_decode_adaptors(ctx, F)
     check_reverse_forms(ctx, F)
     check_state_writers(ctx, F)
+    import props.C04 as c04
+    c04.check_refill_threshold(ctx, F)     # import loops establish the invariant the decoder's refill test maintains
     if ctx.tier == 'thorough':
         from vlib import witness
         witness.run(ctx, 'C01')
